@@ -368,6 +368,17 @@ def canon_conditionals(fn: ast.FunctionDef) -> ast.FunctionDef:
             return node
 
     fn = AssignIfExp().visit(fn)
+
+    class PositiveTests(ast.NodeTransformer):
+        """`if not c: A else: B` -> `if c: B else: A`"""
+
+        def visit_If(self, node: ast.If):
+            self.generic_visit(node)
+            if isinstance(node.test, ast.UnaryOp) and isinstance(node.test.op, ast.Not) and node.orelse:
+                return ast.If(test=node.test.operand, body=node.orelse, orelse=node.body)
+            return node
+
+    fn = PositiveTests().visit(fn)
     return ast.fix_missing_locations(fn)
 
 
